@@ -174,6 +174,9 @@ func (e *Engine) initExt() {
 		vc := f.vc
 		for _, name := range vc.elemComps(el) {
 			cOld := vc.get(st, name)
+			if !vc.freshRefs[s.arr().S] {
+				st.markDirty(name)
+			}
 			perm := vc.fresh("sorted", cOld.Sort.V)
 			j := Term{"j!q", SInt}
 			// elements outside [0,len) untouched; a slice of length <= 1 is unchanged
